@@ -1363,6 +1363,50 @@ fn client_library_boundedness(ctx: &Ctx, agg: &mut Agg) -> Value {
             }
         }
     }
+    // opening what a daemon left that died (or is stopped) inside the creation of its segment: the first 0..72 bytes
+    // of a segment - with whatever errno an earlier, unrelated call left in the calling thread (EINTR after an
+    // interrupted sleep, EAGAIN after a non-blocking read: successful calls never clear it). The open must come back.
+    {
+        let full = valid_file(2, &rec0);
+        let c_bin = crate::gridmc::abi::build_c(ctx, false).ok();
+        for len in [0usize, 4, 8, 12, 14, 15, 16, 40, 71, 72] {
+            for stale in [0i32, libc::EINTR, libc::EAGAIN] {
+                let path = dir.join(format!("open-{len}-{stale}"));
+                let _ = std::fs::write(&path, &full[..len]);
+                let name = format!("open of the first {len} bytes of a segment, errno of the calling thread {stale} before the call");
+                let r = run_with_timeout(10, || {
+                    errno::set_errno(errno::Errno(stale));
+                    match ClockBoundClient::new_with_path(path.to_str().unwrap()) {
+                        Ok(_) => json!({"open": "ok"}),
+                        Err(e) => json!({"open": format!("{:?}", e.kind)}),
+                    }
+                });
+                match r {
+                    Ok(v) => results.push(json!({"library": "Rust client", "situation": name, "returned": v})),
+                    Err(e) if e == "timeout" => {
+                        agg.add("C18:client-library-call-does-not-return".into(), 0, format!("ClockBoundClient::new_with_path() did not return within 10 s: {name}"), json!({"engine": "seqmc", "directed": "client library boundedness", "library": "Rust client", "situation": name, "calls": []}));
+                        results.push(json!({"library": "Rust client", "situation": name, "returned": "NEVER"}));
+                    }
+                    Err(e) => machinery_failure(&format!("client-library phase, {name}: {e}")),
+                }
+                if let Some(bin) = &c_bin {
+                    let mut c = match crate::gridmc::abi::start_c(bin, "libclockbound.so") {
+                        Ok(c) => c,
+                        Err(e) => machinery_failure(&e),
+                    };
+                    match c.ask(&format!("E {stale}")).and_then(|_| c.ask(&format!("O {}", path.display()))) {
+                        Ok(l) => results.push(json!({"library": "C library", "situation": name, "returned": l})),
+                        Err(e) if e.contains("did not return within") => {
+                            agg.add("C18:client-library-call-does-not-return".into(), 0, format!("{e}: {name}"), json!({"engine": "seqmc", "directed": "client library boundedness", "library": "C library", "situation": name, "calls": []}));
+                            results.push(json!({"library": "C library", "situation": name, "returned": "NEVER"}));
+                        }
+                        Err(e) => machinery_failure(&format!("client-library phase (C), {name}: {e}")),
+                    }
+                    c.finish();
+                }
+            }
+        }
+    }
     // the same, counted: three million consecutive calls by one long-lived client in the situations in which a
     // call answers from its cache (what a client polling at 1 kHz makes in under an hour of daemon outage)
     let many: i64 = 3_000_000;
